@@ -209,10 +209,18 @@ def _run(spec, res):
             if e1 > 1e-9:
                 res.fail("C13.iterate", f"update {u} iteration {it}: returned iterate differs from Polyak step on (mu_0/4pi) sum K a / r by {e1:.3e} (relative)")
                 break
-            num = np.linalg.norm(dA, axis=1)
-            den = np.maximum(np.linalg.norm(A_out, axis=1), 1e-20)
+            # the reported error is max_e |dA_e| / max(|A_e|, 1e-20).  The maximum is often attained where |A_e| is tiny,
+            # where the 1e-9 agreement of the iterate (checked above) is not enough to recompute the ratio, so the error
+            # is recomputed from the *returned* iterate: dA = (v_new - (1-drag) v_prev)/step with v_new = A_out - A_prev,
+            # which together with the iterate check pins it to the SI sum (found necessary by the thorough tier)
+            v_new = c["A_out"] - c["A_prev"]
+            dA_impl = (v_new - (1 - beta) * c["v_prev"]) / alpha
+            num = np.linalg.norm(dA_impl, axis=1)
+            den = np.maximum(np.linalg.norm(c["A_out"], axis=1), 1e-20)
             want_err = float(np.max(num / den))
-            if abs(want_err - c["err"]) > 1e-7 * max(want_err, 1e-30) + 1e-12:
+            amax = float(np.max(np.linalg.norm(c["A_out"], axis=1))) + float(np.max(np.abs(c["A_prev"])))
+            slack = float(np.max(1e-13 * amax / (alpha * den)))
+            if abs(want_err - c["err"]) > 1e-6 * max(want_err, 1e-30) + slack + 1e-12:
                 res.fail("C13.reported_error", f"update {u} iteration {it}: reported relative error {c['err']:.6e}, recomputed {want_err:.6e}")
                 break
         if res.violations:
